@@ -638,13 +638,31 @@ func runRealUDP(c admitCase, wantReplies int) (outcome, error) {
 	}
 	wd := time.AfterFunc(watchdog, func() { mu.Lock(); cond.Broadcast(); mu.Unlock() })
 	end := time.Now().Add(watchdog)
+	// a server that stops serving on its own (ActivateAndServe returns) is not waited for
+	exited, watching := false, make(chan struct{})
+	var exitErr error
+	go func() {
+		select {
+		case e := <-done:
+			done <- e // buffered: shutdown() below still finds it
+			mu.Lock()
+			exited, exitErr = true, e
+			cond.Broadcast()
+			mu.Unlock()
+		case <-watching:
+		}
+	}()
 	mu.Lock()
-	for nread < sent && time.Now().Before(end) {
+	for nread < sent && !exited && time.Now().Before(end) {
 		cond.Wait()
 	}
-	got := nread
+	got, gone, goneErr := nread, exited, exitErr
 	mu.Unlock()
 	wd.Stop()
+	close(watching)
+	if gone && got < sent {
+		return outcome{}, fmt.Errorf("the server stopped serving after %d of %d datagrams from the loopback socket: ActivateAndServe returned %v", got, sent, goneErr)
+	}
 	if got < sent {
 		shutdown(srv, done)
 		return outcome{}, fmt.Errorf("server read %d of %d datagrams from the loopback socket", got, sent)
